@@ -104,12 +104,13 @@ ImplAssocOp(op, G, x, ac, rc, ro, rr) ==
 
 (* ReferenceNames ("AN": the paths) / References ("A": the instances got  *)
 (* by path from the store of the source's namespace); S = assocs indexes  *)
-ImplRefOp(op, G, x, rc, ro) ==
+ImplRefOpOn(op, G, x, rc, refs) ==     \* refs = ImplRefPaths(G, x, rc, ro)
   IF rc # "" /\ rc \notin Classes THEN IErr4
-  ELSE LET refs == ImplRefPaths(G, x, rc, ro) IN
-       IF op = "AN" THEN IOk({PathIdx(G, j) : j \in refs})
-       ELSE IF ~PathsInStore(G, x, refs) THEN IErr6
-       ELSE IOk(refs)
+  ELSE IF op = "AN" THEN IOk({PathIdx(G, j) : j \in refs})
+  ELSE IF ~PathsInStore(G, x, refs) THEN IErr6
+  ELSE IOk(refs)
+ImplRefOp(op, G, x, rc, ro) ==
+  ImplRefOpOn(op, G, x, rc, ImplRefPaths(G, x, rc, ro))
 
 (*------------------------- class level -----------------------------------*)
 (* _get_reference_classnames / _get_associated_classnames over the fixed   *)
